@@ -197,4 +197,9 @@ def run(ctx: Ctx):
     ctx.rule("R20.4", "x through the xdim axis, y through the ydim axis, clamped", 1)
     ctx.rule("R20.5", "shapes in input order with their values; fill/dtype/all_touched forwarded", 4)
     C20(ctx).run()
+    # bin lookup with clamping (anchored file arrays/dimensions.py get_coord_index): C16's lookup rule
+    from .c16 import C16
+    with ctx.delegated("C16/"):
+        ctx.rule("R16.2", "coordinate lookup: right bound - 1 in range, raise/clamp outside", 2)
+        C16(ctx).check_coord_index()
     return EXPLANATION, ASSUMPTIONS
